@@ -76,10 +76,11 @@ Proof.
   destruct (Z.ltb_spec (Zlength f) 14); [lia|]. destruct (Z.ltb_spec ty 1536); [lia|]. reflexivity.
 Qed.
 
-(* the IPv4-header part of wf_ip *)
+(* the IPv4-header part of wf_ip, as far as the captured bytes must go: the header lies inside the
+   captured bytes (the total length may exceed them: a frame cut to the snapshot length) *)
 Definition ip_hdr_ok (p : bytes) : bool :=
   let d1 := if ip_total p <? Zlength p then take (ip_total p) p else p in
-  (20 <=? Zlength p) && (5 <=? ip_ihl p) && (ip_ihl p * 4 <=? ip_total p) && (ip_total p <=? Zlength p)
+  (20 <=? Zlength p) && (5 <=? ip_ihl p) && (ip_ihl p * 4 <=? ip_total p) && (ip_ihl p * 4 <=? Zlength p)
   && match ip_opts 41 (take (ip_ihl p * 4 - 20) (drop 20 d1)) with None => true | Some _ => false end.
 
 Lemma ip_fwd st p :
@@ -95,8 +96,8 @@ Proof.
   destruct (Z.ltb_spec (Zlength p) 20); [lia|].
   destruct (Z.ltb_spec tl 20); [lia|]. destruct (Z.ltb_spec ihl 5); [lia|].
   destruct (Z.ltb_spec tl (ihl * 4)); [lia|].
-  destruct (Z.ltb_spec (Zlength p) tl); [lia|]. cbn [andb].
-  destruct (ip_opts 41 _); [discriminate|]. reflexivity.
+  destruct (Z.ltb_spec (Zlength p) (ihl * 4)); [lia|].
+  destruct (Z.ltb_spec (Zlength p) tl); cbn [andb]; (destruct (ip_opts 41 _); [discriminate|]); reflexivity.
 Qed.
 
 Lemma tcp_fwd st s :
@@ -150,8 +151,10 @@ Lemma wf_ip_parts p : wf_ip p = true ->
 Proof.
   unfold wf_ip, ip_hdr_ok. intros H.
   repeat (apply andb_true_iff in H; destruct H as [H ?]).
-  repeat match goal with Hx : ?b = true |- context [?b] => rewrite Hx end.
-  split; [reflexivity|]. split; [apply Z.eqb_eq; assumption|]. split; [reflexivity|].
+  split.
+  { repeat match goal with Hx : ?b = true |- context [?b] => rewrite Hx end. rewrite !andb_true_r.
+    repeat match goal with Hx : (_ <=? _) = true |- _ => apply Z.leb_le in Hx end. apply Z.leb_le. lia. }
+  split; [apply Z.eqb_eq; assumption|]. split; [assumption|].
   match goal with Hx : (if byte_at 9 p =? 6 then _ else _) = true |- _ => rename Hx into Ht end.
   split.
   - intros E. rewrite E in Ht. change (6 =? 6) with true in Ht. cbv iota in Ht.
@@ -171,11 +174,25 @@ Proof.
 Qed.
 
 Lemma ip_body_len p : ip_hdr_ok p = true ->
-  Zlength (ip_body p) = ip_total p - ip_ihl p * 4 /\ ip_ihl p * 4 <= ip_total p <= Zlength p /\ 5 <= ip_ihl p.
+  Zlength (ip_body p) = Z.min (ip_total p) (Zlength p) - ip_ihl p * 4 /\
+  ip_ihl p * 4 <= ip_total p /\ ip_ihl p * 4 <= Zlength p /\ 5 <= ip_ihl p.
 Proof.
   unfold ip_hdr_ok, ip_body. intros H. repeat (apply andb_true_iff in H; destruct H as [H ?]).
   repeat match goal with Hx : (_ <=? _) = true |- _ => apply Z.leb_le in Hx end.
   destruct (Z.ltb_spec (ip_total p) (Zlength p)); rewrite Zlength_drop; [rewrite Zlength_take|]; lia.
+Qed.
+
+(* what the receive path needs of a captured IPv4 packet carrying the scanned transport *)
+Definition ip_chain_ok (p : bytes) : Prop :=
+  ip_hdr_ok p = true /\ ip_unfragmented p = true /\
+  (byte_at 9 p = 6 -> tcp_header (ip_body p) = true /\
+     tcp_opts 41 (take ((byte_at 12 (ip_body p) / 16) mod 16 * 4 - 20) (drop 20 (ip_body p))) = None) /\
+  (byte_at 9 p = 1 -> icmp_header (ip_body p) = true).
+
+Lemma wf_ip_chain p : wf_ip p = true -> ip_chain_ok p.
+Proof.
+  intros H. destruct (wf_ip_parts p H) as [H1 [_ [H2 [H3 H4]]]]. unfold ip_chain_ok.
+  split; [exact H1|split; [exact H2|split; [exact H3|exact H4]]].
 Qed.
 
 Lemma loop_step_fwd has fuel t st d acc st1 next pl :
@@ -193,7 +210,7 @@ Proof. intros H Hn. cbn [decode_loop]. rewrite H. destruct pl; [reflexivity|]. r
 
 (* the loop from the IPv4 layer on, on a well-formed packet carrying the scanned transport *)
 Lemma loop_ip_transport k st p acc fuel :
-  wf_ip p = true ->
+  ip_chain_ok p ->
   (match k with KTcp _ _ => byte_at 9 p = 6 | KIcmp => byte_at 9 p = 1 | KArp => False end) ->
   exists st',
     decode_loop (has_dec k) (S (S fuel)) LIPv4 st p acc = (st', (acc ++ [LIPv4]) ++ [transport k], None) /\
@@ -205,8 +222,7 @@ Lemma loop_ip_transport k st p acc fuel :
     | KArp => True
     end.
 Proof.
-  intros Hwf Hk. destruct (wf_ip_parts p Hwf) as [Hh [_ [Hu [Ht Hi]]]].
-  destruct (ip_body_len p Hh) as [Hlen [Hb Hihl]].
+  intros Hwf Hk. destruct Hwf as [Hh [Hu [Ht Hi]]].
   pose proof (ip_fwd st p Hh) as Hip.
   destruct k as [pf af| |]; [| |contradiction].
   - rewrite (ip_next_unfrag p 6 Hu Hk) in Hip. change (6 =? 6) with true in Hip. cbv iota in Hip.
@@ -238,11 +254,12 @@ Definition expected_outcome (k : kind) (raw : bool) (f : bytes) : outcome :=
 
 Lemma process_complete_ip k raw st f :
   (match k with KTcp _ _ => byte_at 9 (l3 k raw f) = 6 | KIcmp => byte_at 9 (l3 k raw f) = 1 | KArp => False end) ->
-  (raw = true \/ eth_header 2048 f = true) -> wf_ip (l3 k raw f) = true ->
+  (raw = true \/ eth_header 2048 f = true) -> ip_chain_ok (l3 k raw f) ->
   snd (process k raw (code_valid k) st f) = expected_outcome k raw f.
 Proof.
   intros Hk Hl Hwf. unfold process, decode_layers.
-  destruct (wf_ip_parts _ Hwf) as [Hh _]. destruct (ip_body_len _ Hh) as [_ [Hb Hihl]].
+  destruct Hwf as [Hh Hrest]. destruct (ip_body_len _ Hh) as [_ [_ [Hb Hihl]]].
+  assert (Hwf : ip_chain_ok (l3 k raw f)) by (split; assumption).
   destruct raw.
   - (* raw IPv4 *)
     assert (El : l3 k true f = f) by (destruct k; try reflexivity; contradiction). rewrite El in *.
@@ -336,7 +353,7 @@ Qed.
 Lemma byte_at_body p i : ip_hdr_ok p = true -> 0 <= i < Zlength (ip_body p) ->
   byte_at i (ip_body p) = byte_at (ip_ihl p * 4 + i) p.
 Proof.
-  intros Hh Hi. destruct (ip_body_len p Hh) as [Hlen [Hb Hihl]]. rewrite Hlen in Hi. unfold ip_body.
+  intros Hh Hi. destruct (ip_body_len p Hh) as [Hlen [Hb [Hc Hihl]]]. rewrite Hlen in Hi. unfold ip_body.
   rewrite byte_at_drop by lia. destruct (ip_total p <? Zlength p); [|reflexivity].
   apply byte_at_take. lia.
 Qed.
@@ -359,9 +376,9 @@ Proof.
   apply andb_true_iff in H. destruct H as [H _]. apply Z.leb_le. exact H.
 Qed.
 
-Lemma on_len : 20 <= Zlength p /\ 5 <= ip_ihl p /\ ip_ihl p * 4 <= ip_total p <= Zlength p /\ 0 <= ip_ihl p < 16.
+Lemma on_len : 20 <= Zlength p /\ 5 <= ip_ihl p /\ ip_ihl p * 4 <= Zlength p /\ 0 <= ip_ihl p < 16.
 Proof.
-  pose proof (ip_body_len p Hh) as [_ [Hb Hi]]. split; [lia|]. split; [lia|]. split; [lia|].
+  pose proof (ip_body_len p Hh) as [_ [_ [Hb Hi]]]. split; [lia|]. split; [lia|]. split; [lia|].
   unfold ip_ihl. apply Z.mod_pos_bound. lia.
 Qed.
 
@@ -396,7 +413,7 @@ Proof. rewrite (ld32_p raw f 12 on_link_ok) by (pose proof on_len; lia). reflexi
 Lemma on_body8 i : 0 <= i < Zlength (ip_body p) ->
   ld8 (nl raw + 4 * ip_ihl p + i) f = Some (byte_at i (ip_body p)).
 Proof.
-  intros Hi. rewrite (byte_at_body p i Hh Hi). destruct (ip_body_len p Hh) as [Hlen [Hb _]].
+  intros Hi. rewrite (byte_at_body p i Hh Hi). destruct (ip_body_len p Hh) as [Hlen [Hb _]]. rewrite Hlen in Hi.
   replace (nl raw + 4 * ip_ihl p + i) with (nl raw + (ip_ihl p * 4 + i)) by lia.
   apply ld8_p; [exact on_link_ok|]. pose proof on_len. lia.
 Qed.
@@ -405,7 +422,7 @@ Lemma on_body16 : 2 <= Zlength (ip_body p) ->
   ld16 (nl raw + 4 * ip_ihl p) f = Some (be16 (byte_at 0 (ip_body p)) (byte_at 1 (ip_body p))).
 Proof.
   intros Hi. rewrite (byte_at_body p 0 Hh) by lia. rewrite (byte_at_body p 1 Hh) by lia.
-  destruct (ip_body_len p Hh) as [Hlen [Hb _]].
+  destruct (ip_body_len p Hh) as [Hlen [Hb _]]. rewrite Hlen in Hi.
   replace (nl raw + 4 * ip_ihl p) with (nl raw + (ip_ihl p * 4)) by lia.
   rewrite (ld16_p raw f (ip_ihl p * 4) on_link_ok) by (pose proof on_len; lia).
   rewrite Z.add_0_r. reflexivity.
@@ -501,6 +518,123 @@ Qed.
 
 End OnIPv4.
 
+(* ------------------------------------------------------------------ cutting a frame to the snapshot length *)
+Lemma take_nonpos n (l : bytes) : n <= 0 -> take n l = [].
+Proof. intros H. destruct l; cbn; [reflexivity|]. destruct (Z.leb_spec n 0); [reflexivity|lia]. Qed.
+
+Lemma take_take (l : bytes) : forall n m, n <= m -> take n (take m l) = take n l.
+Proof.
+  induction l as [|x l IH]; intros n m H; [reflexivity|]. cbn [take].
+  destruct (Z.leb_spec m 0).
+  - destruct (Z.leb_spec n 0); [|lia]. reflexivity.
+  - cbn [take]. destruct (Z.leb_spec n 0); [reflexivity|]. f_equal. apply IH. lia.
+Qed.
+
+Lemma take_drop_take (l : bytes) n m a : 0 <= n -> n + m <= a -> take m (drop n (take a l)) = take m (drop n l).
+Proof. intros Hn H. rewrite drop_take by lia. apply take_take. lia. Qed.
+
+Definition d1_of (x : bytes) : bytes := if ip_total x <? Zlength x then take (ip_total x) x else x.
+
+Lemma d1_prefix x n m : 0 <= n -> n + m <= ip_total x -> take m (drop n (d1_of x)) = take m (drop n x).
+Proof. intros Hn H. unfold d1_of. destruct (_ <? _); [apply take_drop_take; assumption|reflexivity]. Qed.
+
+Lemma body_prefix x n m : 0 <= n -> 0 <= ip_ihl x -> ip_ihl x * 4 + n + m <= ip_total x ->
+  take m (drop n (ip_body x)) = take m (drop (ip_ihl x * 4 + n) x).
+Proof.
+  intros Hn Hh H. unfold ip_body. fold (d1_of x). rewrite drop_drop by lia. apply d1_prefix; lia.
+Qed.
+
+Section Cut.
+Variables (p : bytes) (S' : Z).
+Hypothesis Hwf : wf_ip p = true.
+Hypothesis Hsmall : Zlength p < 65536.
+Hypothesis HS : 60 <= S'.
+Local Notation q := (take S' p).
+Local Notation h := (ip_ihl p * 4).
+
+Lemma cut_byte i : 0 <= i < S' -> byte_at i q = byte_at i p.
+Proof. intros. apply byte_at_take. lia. Qed.
+
+Lemma cut_len : Zlength q = Z.min S' (Zlength p).
+Proof. rewrite Zlength_take. lia. Qed.
+
+Lemma cut_ihl : ip_ihl q = ip_ihl p.
+Proof. unfold ip_ihl. rewrite cut_byte by lia. reflexivity. Qed.
+
+Lemma cut_wf : 20 <= Zlength p /\ 5 <= ip_ihl p < 16 /\ h <= ip_total p <= Zlength p.
+Proof.
+  destruct (wf_ip_parts p Hwf) as [Hh _]. destruct (ip_body_len p Hh) as [_ [H1 [H2 H3]]].
+  unfold wf_ip in Hwf. repeat (apply andb_true_iff in Hwf; destruct Hwf as [Hwf ?]).
+  repeat match goal with Hx : (_ <=? _) = true |- _ => apply Z.leb_le in Hx end.
+  assert (0 <= ip_ihl p < 16) by (unfold ip_ihl; apply Z.mod_pos_bound; lia). lia.
+Qed.
+
+Lemma cut_total : Z.min S' (ip_total p) <= ip_total q /\ Z.min (ip_total q) (Zlength q) = Z.min S' (ip_total p).
+Proof.
+  pose proof cut_wf as [H20 [Hi Ht]]. pose proof cut_len as Hl. unfold ip_total in *.
+  rewrite !cut_byte by lia.
+  pose proof (Zlength_nonneg p). pose proof (Zlength_nonneg q).
+  destruct (be16 (byte_at 2 p) (byte_at 3 p) =? 0).
+  - rewrite (Z.mod_small (Zlength p)) in * by lia. rewrite (Z.mod_small (Zlength q)) by lia. lia.
+  - lia.
+Qed.
+
+Lemma cut_hdr_ok : ip_hdr_ok q = true.
+Proof.
+  pose proof cut_wf as [H20 [Hi Ht]]. pose proof cut_len as Hl. pose proof cut_total as [Hq1 Hq2].
+  destruct (wf_ip_parts p Hwf) as [Hh _].
+  unfold ip_hdr_ok in *. rewrite cut_ihl. fold (d1_of q). fold (d1_of p) in Hh.
+  repeat (apply andb_true_iff in Hh; destruct Hh as [Hh ?]).
+  rewrite (d1_prefix q 20 (h - 20)) by lia. rewrite take_drop_take by lia.
+  match goal with Hx : match ip_opts 41 _ with _ => _ end = true |- _ => rewrite (d1_prefix p 20 (h - 20)) in Hx by lia; rewrite Hx end.
+  repeat (apply andb_true_iff; split); try reflexivity; apply Z.leb_le; lia.
+Qed.
+
+Lemma cut_body_len : Zlength (ip_body q) = Z.min S' (ip_total p) - h.
+Proof.
+  destruct (ip_body_len q cut_hdr_ok) as [Hl _]. rewrite Hl, cut_ihl. destruct cut_total as [_ ->]. reflexivity.
+Qed.
+
+Lemma cut_body_byte i : 0 <= i -> h + i < S' -> h + i < ip_total p ->
+  byte_at i (ip_body q) = byte_at i (ip_body p).
+Proof.
+  intros Hi H1 H2. pose proof cut_wf as [H20 [Hih Ht]]. destruct (wf_ip_parts p Hwf) as [Hh _].
+  rewrite (byte_at_body q i cut_hdr_ok) by (rewrite cut_body_len; lia).
+  rewrite (byte_at_body p i Hh) by (destruct (ip_body_len p Hh) as [-> _]; lia).
+  rewrite cut_ihl. apply cut_byte. lia.
+Qed.
+
+Lemma cut_unfrag : ip_unfragmented q = ip_unfragmented p.
+Proof. unfold ip_unfragmented. rewrite !cut_byte by lia. reflexivity. Qed.
+
+Lemma cut_chain_ok :
+  (byte_at 9 p = 6 -> 120 <= S') -> (byte_at 9 p = 1 -> 68 <= S') -> ip_chain_ok q.
+Proof.
+  intros H6 H1. pose proof cut_wf as [H20 [Hih Ht]].
+  destruct (wf_ip_parts p Hwf) as [Hh [_ [Hu [Htcp Hicmp]]]].
+  destruct (ip_body_len p Hh) as [Hbl _]. rewrite Z.min_l in Hbl by lia.
+  unfold ip_chain_ok. split; [exact cut_hdr_ok|]. split; [rewrite cut_unfrag; exact Hu|].
+  rewrite (cut_byte 9) by lia. split.
+  - intros E. specialize (H6 E). destruct (Htcp E) as [Hth Hto].
+    assert (Hd : 20 <= Zlength (ip_body p) /\ 5 <= (byte_at 12 (ip_body p) / 16) mod 16 < 16 /\
+                 (byte_at 12 (ip_body p) / 16) mod 16 * 4 <= Zlength (ip_body p)).
+    { unfold tcp_header in Hth. repeat (apply andb_true_iff in Hth; destruct Hth as [Hth ?]).
+      repeat match goal with Hx : (_ <=? _) = true |- _ => apply Z.leb_le in Hx end.
+      pose proof (Z.mod_pos_bound (byte_at 12 (ip_body p) / 16) 16 ltac:(lia)). lia. }
+    destruct Hd as [Hd1 [Hd2 Hd3]].
+    assert (E12 : byte_at 12 (ip_body q) = byte_at 12 (ip_body p)) by (apply cut_body_byte; lia).
+    split.
+    + unfold tcp_header. rewrite E12, cut_body_len.
+      repeat (apply andb_true_iff; split); apply Z.leb_le; lia.
+    + rewrite E12. pose proof cut_total as [Hq1 Hq2].
+      rewrite (body_prefix q 20) by (rewrite ?cut_ihl; lia). rewrite cut_ihl, take_drop_take by lia.
+      rewrite (body_prefix p 20) in Hto by lia. exact Hto.
+  - intros E. specialize (H1 E). pose proof (Hicmp E) as Hth. unfold icmp_header in *. apply Z.leb_le in Hth.
+    rewrite cut_body_len. apply Z.leb_le. lia.
+Qed.
+
+End Cut.
+
 (* ------------------------------------------------------------------ reported <-> reply shape *)
 Lemma flags512_in fl : 0 <= fl < 512 -> In fl flags512.
 Proof.
@@ -523,6 +657,7 @@ Lemma wf_unfrag_ip raw f : wf_unfrag raw f = true -> (raw = true \/ eth_header 2
   wf_ip (lp raw f) = true /\ wf_bytes (lp raw f) = true.
 Proof.
   unfold wf_unfrag, lp. intros H Hl. apply andb_true_iff in H. destruct H as [Hb H].
+  apply andb_true_iff in Hb. destruct Hb as [Hb _].
   destruct raw; [split; assumption|]. destruct Hl as [Hl|Hl]; [discriminate|]. rewrite Hl in H.
   split; [exact H|]. apply forallb_drop. exact Hb.
 Qed.
@@ -550,6 +685,104 @@ Proof. destruct k as [pf af| |]; cbn; [destruct (pf _); reflexivity|reflexivity|
 Lemma bpf_sem_some raw e f b : bpf_eval raw e f = Some b -> bpf_sem raw e f = b.
 Proof. unfold bpf_sem. intros ->. destruct b; reflexivity. Qed.
 
+Lemma eth_header_take ty f S : 14 <= S -> eth_header ty (take S f) = eth_header ty f.
+Proof.
+  intros. unfold eth_header. rewrite !byte_at_take by lia. rewrite Zlength_take.
+  pose proof (Zlength_nonneg f).
+  destruct (Z.leb_spec 14 (Zlength f)), (Z.leb_spec 14 (Z.min (Z.max 0 S) (Zlength f))); try lia; reflexivity.
+Qed.
+
+Lemma lp_take raw f S : 14 <= S -> lp raw (take S f) = take (S - nl raw) (lp raw f).
+Proof. intros. unfold lp, nl. destruct raw; [rewrite Z.sub_0_r; reflexivity|apply drop_take; lia]. Qed.
+
+Lemma l3_lp k raw f : k <> KArp -> l3 k raw f = lp raw f.
+Proof. destruct k; try reflexivity. congruence. Qed.
+
+(* cutting a well-formed frame to a snapshot length that covers the largest header chain of the scan
+   does not change what the processor does with it *)
+Lemma process_cut_ip k raw st f S proto :
+  (match k with KTcp _ _ => proto = 6 | KIcmp => proto = 1 | KArp => False end) ->
+  wf_unfrag raw f = true -> snap_need k <= S ->
+  snd (process k raw (code_valid k) st (take S f)) = snd (process k raw (code_valid k) st f) \/
+  (is_record (snd (process k raw (code_valid k) st (take S f))) = false /\
+   is_record (snd (process k raw (code_valid k) st f)) = false).
+Proof.
+  intros Hk Hwf HS.
+  assert (Hka : k <> KArp) by (destruct k; try discriminate; contradiction).
+  assert (HS14 : 82 <= S) by (destruct k; cbn in HS; try lia; contradiction).
+  assert (Hnl : 0 <= nl raw <= 14) by (unfold nl; destruct raw; lia).
+  assert (E9 : byte_at 9 (lp raw (take S f)) = byte_at 9 (lp raw f)) by (rewrite lp_take by lia; apply byte_at_take; lia).
+  destruct ((raw || eth_header 2048 f) && (byte_at 9 (lp raw f) =? proto)) eqn:C0.
+  - left. apply andb_true_iff in C0. destruct C0 as [Hl E]. apply Z.eqb_eq in E. apply orb_true_iff in Hl.
+    destruct (wf_unfrag_ip raw f Hwf Hl) as [Hip Hby].
+    assert (Hsmall : Zlength (lp raw f) < 65536).
+    { unfold wf_unfrag in Hwf. repeat (apply andb_true_iff in Hwf; destruct Hwf as [Hwf ?]).
+      match goal with Hx : (Zlength f <? 65536) = true |- _ => apply Z.ltb_lt in Hx end.
+      unfold lp. destruct raw; [assumption|]. rewrite Zlength_drop. pose proof (Zlength_nonneg f). lia. }
+    assert (Hl' : raw = true \/ eth_header 2048 (take S f) = true)
+      by (destruct Hl as [Hl|Hl]; [left; exact Hl|right; rewrite eth_header_take by lia; exact Hl]).
+    assert (HS' : 60 <= S - nl raw) by lia.
+    assert (Hchain : ip_chain_ok (l3 k raw (take S f))).
+    { rewrite (l3_lp k raw _ Hka), lp_take by lia.
+      assert (H120 : byte_at 9 (lp raw f) = 6 -> 120 <= S - nl raw).
+      { intros E6. destruct k as [pf af| |]; cbn in HS; [lia| |contradiction]. rewrite E in E6. subst proto. discriminate. }
+      assert (H68 : byte_at 9 (lp raw f) = 1 -> 68 <= S - nl raw) by (intros _; lia).
+      exact (cut_chain_ok _ _ Hip Hsmall HS' H120 H68). }
+    assert (Hk1 : match k with KTcp _ _ => byte_at 9 (l3 k raw (take S f)) = 6 | KIcmp => byte_at 9 (l3 k raw (take S f)) = 1 | KArp => False end)
+      by (destruct k; try contradiction; cbn [l3]; fold (lp raw (take S f)); rewrite E9, E; exact Hk).
+    assert (Hk2 : match k with KTcp _ _ => byte_at 9 (l3 k raw f) = 6 | KIcmp => byte_at 9 (l3 k raw f) = 1 | KArp => False end)
+      by (destruct k; try contradiction; cbn [l3]; fold (lp raw f); rewrite E; exact Hk).
+    rewrite (process_complete_ip k raw st (take S f) Hk1 Hl' Hchain).
+    rewrite (process_complete_ip k raw st f Hk2 Hl (eq_ind_r ip_chain_ok (wf_ip_chain _ Hip) (l3_lp k raw f Hka))).
+    (* the two expected outcomes read the same bytes *)
+    destruct (cut_wf _ Hip) as [H20 [Hih Htl]]. destruct (wf_ip_parts _ Hip) as [Hh [_ [_ [Htcp Hicmp]]]].
+    destruct (ip_body_len _ Hh) as [Hbl _]. rewrite Z.min_l in Hbl by lia.
+    unfold expected_outcome, fields_of. rewrite !(l3_lp k raw _ Hka), lp_take by lia.
+    destruct k as [pf af| |]; [| |contradiction]; subst proto.
+    + destruct (Htcp E) as [Hth _]. unfold tcp_header in Hth.
+      repeat (apply andb_true_iff in Hth; destruct Hth as [Hth ?]). apply Z.leb_le in Hth. cbn in HS.
+      unfold flags9.
+      rewrite !(cut_body_byte _ _ Hip Hsmall HS') by lia. rewrite take_drop_take by lia. reflexivity.
+    + pose proof (Hicmp E) as Hth. unfold icmp_header in Hth. apply Z.leb_le in Hth. cbn in HS.
+      rewrite !(cut_body_byte _ _ Hip Hsmall HS') by lia. rewrite take_drop_take by lia.
+      rewrite (cut_byte _ _ 8) by lia. reflexivity.
+  - right. split.
+    + apply (no_record_ip k raw st (take S f) proto Hk). rewrite E9, eth_header_take by lia. exact C0.
+    + apply (no_record_ip k raw st f proto Hk C0).
+Qed.
+
+Lemma process_cut_arp st f S :
+  wf_unfrag false f = true -> snap_need KArp <= S ->
+  snd (process KArp false (code_valid KArp) st (take S f)) = snd (process KArp false (code_valid KArp) st f) \/
+  (is_record (snd (process KArp false (code_valid KArp) st (take S f))) = false /\
+   is_record (snd (process KArp false (code_valid KArp) st f)) = false).
+Proof.
+  intros Hwf HS. cbn in HS.
+  destruct (eth_header 2054 f) eqn:C0.
+  - left.
+    assert (Hn : eth_header 2048 f = false).
+    { unfold eth_header in *. apply andb_true_iff in C0. destruct C0 as [_ C0]. apply Z.eqb_eq in C0. rewrite C0.
+      apply andb_false_r. }
+    unfold wf_unfrag in Hwf. rewrite Hn, C0 in Hwf. apply andb_true_iff in Hwf. destruct Hwf as [_ Ha].
+    assert (Ha' : arp_6_4 (drop 14 (take S f)) = true).
+    { rewrite drop_take by lia. unfold arp_6_4 in *. rewrite !byte_at_take by lia.
+      repeat (apply andb_true_iff in Ha; destruct Ha as [Ha ?]). apply Z.leb_le in Ha.
+      repeat (apply andb_true_iff; split); try assumption. apply Z.leb_le. rewrite Zlength_take. lia. }
+    rewrite (process_complete_arp st (take S f) (eq_trans (eth_header_take 2054 f S ltac:(lia)) C0) Ha').
+    rewrite (process_complete_arp st f C0 Ha).
+    unfold fields_of, l3. rewrite drop_take by lia. rewrite !take_drop_take by lia. reflexivity.
+  - right. split.
+    + destruct (process KArp false (code_valid KArp) st (take S f)) as [st' o] eqn:E. destruct o; try reflexivity.
+      exfalso. apply (process_record KArp (code_valid KArp) (code_valid_sound KArp)) in E. destruct E as [Hch _].
+      unfold has_chain in Hch. rewrite eth_header_take, C0 in Hch by lia. discriminate.
+    + destruct (process KArp false (code_valid KArp) st f) as [st' o] eqn:E. destruct o; try reflexivity.
+      exfalso. apply (process_record KArp (code_valid KArp) (code_valid_sound KArp)) in E. destruct E as [Hch _].
+      unfold has_chain in Hch. rewrite C0 in Hch. discriminate.
+Qed.
+
+Lemma cut_is_record a b : a = b \/ (is_record a = false /\ is_record b = false) -> is_record a = is_record b.
+Proof. intros [->|[-> ->]]; reflexivity. Qed.
+
 Opaque forallb.
 Theorem reported_iff w c vpn r st f :
   cmd_wiring_ok w = true -> class_of_cmd (w_cmd w) = Some c ->
@@ -566,13 +799,15 @@ Proof.
     cbn [andb kind_of_method filter_of]; intros Hwf.
   - (* tcp scans with TrueFilter *)
     set (raw := vpn) in *. fold (lp raw f).
+    match goal with Hs : (snap_need _ <=? _) = true |- _ => apply Z.leb_le in Hs;
+      rewrite (cut_is_record _ _ (process_cut_ip (KTcp pf af) raw st f _ 6 eq_refl Hwf Hs)) end.
     destruct ((raw || eth_header 2048 f) && (byte_at 9 (lp raw f) =? 6)) eqn:C0.
     + apply andb_true_iff in C0. destruct C0 as [Hl E]. apply Z.eqb_eq in E. apply orb_true_iff in Hl.
       destruct (wf_unfrag_ip raw f Hwf Hl) as [Hip Hby].
       destruct (wf_ip_parts _ Hip) as [Hh [_ [Hu [Ht _]]]]. destruct (Ht E) as [Hth _].
       assert (H20 : 20 <= Zlength (ip_body (lp raw f))).
       { unfold tcp_header in Hth. repeat (apply andb_true_iff in Hth; destruct Hth as [Hth ?]). apply Z.leb_le. exact Hth. }
-      rewrite (process_complete_ip (KTcp pf af) raw st f E Hl Hip), is_record_expected. cbn [l3]. fold (lp raw f).
+      rewrite (process_complete_ip (KTcp pf af) raw st f E Hl (wf_ip_chain _ Hip)), is_record_expected. cbn [l3]. fold (lp raw f).
       rewrite (bpf_sem_some _ _ _ _ (ev_tcp_filter raw f Hl Hh r E Hu ltac:(lia))).
       destruct (flags9_range _ (wf_bytes_body _ Hby)) as [Hfr _].
       assert (Hpf : pf (flags9 (ip_body (lp raw f))) = true).
@@ -584,13 +819,15 @@ Proof.
       unfold reply_shape. fold (lp raw f). rewrite C0. reflexivity.
   - (* SYN scan *)
     set (raw := vpn) in *. fold (lp raw f).
+    match goal with Hs : (snap_need _ <=? _) = true |- _ => apply Z.leb_le in Hs;
+      rewrite (cut_is_record _ _ (process_cut_ip (KTcp pf af) raw st f _ 6 eq_refl Hwf Hs)) end.
     destruct ((raw || eth_header 2048 f) && (byte_at 9 (lp raw f) =? 6)) eqn:C0.
     + apply andb_true_iff in C0. destruct C0 as [Hl E]. apply Z.eqb_eq in E. apply orb_true_iff in Hl.
       destruct (wf_unfrag_ip raw f Hwf Hl) as [Hip Hby].
       destruct (wf_ip_parts _ Hip) as [Hh [_ [Hu [Ht _]]]]. destruct (Ht E) as [Hth _].
       assert (H20 : 20 <= Zlength (ip_body (lp raw f))).
       { unfold tcp_header in Hth. repeat (apply andb_true_iff in Hth; destruct Hth as [Hth ?]). apply Z.leb_le. exact Hth. }
-      rewrite (process_complete_ip (KTcp pf af) raw st f E Hl Hip), is_record_expected. cbn [l3]. fold (lp raw f).
+      rewrite (process_complete_ip (KTcp pf af) raw st f E Hl (wf_ip_chain _ Hip)), is_record_expected. cbn [l3]. fold (lp raw f).
       rewrite (bpf_sem_some _ _ _ _ (ev_synack_filter raw f Hl Hh r E Hu ltac:(lia))).
       destruct (flags9_range _ (wf_bytes_body _ Hby)) as [Hfr Hm].
       match goal with Hx : forallb _ flags512 = true |- _ =>
@@ -603,12 +840,14 @@ Proof.
       unfold reply_shape. fold (lp raw f). rewrite C0. reflexivity.
   - (* udp scan: ICMP *)
     set (raw := vpn) in *. fold (lp raw f).
+    match goal with Hs : (snap_need _ <=? _) = true |- _ => apply Z.leb_le in Hs;
+      rewrite (cut_is_record _ _ (process_cut_ip (KIcmp) raw st f _ 1 eq_refl Hwf Hs)) end.
     destruct ((raw || eth_header 2048 f) && (byte_at 9 (lp raw f) =? 1)) eqn:C0.
     + apply andb_true_iff in C0. destruct C0 as [Hl E]. apply Z.eqb_eq in E. apply orb_true_iff in Hl.
       destruct (wf_unfrag_ip raw f Hwf Hl) as [Hip Hby].
       destruct (wf_ip_parts _ Hip) as [Hh [_ [Hu [_ Hi]]]]. pose proof (Hi E) as Hth.
       assert (H8 : 8 <= Zlength (ip_body (lp raw f))) by (apply Z.leb_le; exact Hth).
-      rewrite (process_complete_ip KIcmp raw st f E Hl Hip). cbn [expected_outcome is_record].
+      rewrite (process_complete_ip KIcmp raw st f E Hl (wf_ip_chain _ Hip)). cbn [expected_outcome is_record].
       rewrite (bpf_sem_some _ _ _ _ (ev_icmp_filter raw f Hl Hh r E Hu ltac:(lia))).
       rewrite andb_true_r. unfold reply_shape. fold (lp raw f).
       rewrite E, (proj2 (orb_true_iff _ _) Hl). reflexivity.
@@ -616,12 +855,14 @@ Proof.
       unfold reply_shape. fold (lp raw f). rewrite C0. reflexivity.
   - (* icmp scan *)
     set (raw := vpn) in *. fold (lp raw f).
+    match goal with Hs : (snap_need _ <=? _) = true |- _ => apply Z.leb_le in Hs;
+      rewrite (cut_is_record _ _ (process_cut_ip (KIcmp) raw st f _ 1 eq_refl Hwf Hs)) end.
     destruct ((raw || eth_header 2048 f) && (byte_at 9 (lp raw f) =? 1)) eqn:C0.
     + apply andb_true_iff in C0. destruct C0 as [Hl E]. apply Z.eqb_eq in E. apply orb_true_iff in Hl.
       destruct (wf_unfrag_ip raw f Hwf Hl) as [Hip Hby].
       destruct (wf_ip_parts _ Hip) as [Hh [_ [Hu [_ Hi]]]]. pose proof (Hi E) as Hth.
       assert (H8 : 8 <= Zlength (ip_body (lp raw f))) by (apply Z.leb_le; exact Hth).
-      rewrite (process_complete_ip KIcmp raw st f E Hl Hip). cbn [expected_outcome is_record].
+      rewrite (process_complete_ip KIcmp raw st f E Hl (wf_ip_chain _ Hip)). cbn [expected_outcome is_record].
       rewrite (bpf_sem_some _ _ _ _ (ev_icmp_filter raw f Hl Hh r E Hu ltac:(lia))).
       rewrite andb_true_r. unfold reply_shape. fold (lp raw f).
       rewrite E, (proj2 (orb_true_iff _ _) Hl). reflexivity.
@@ -629,13 +870,16 @@ Proof.
       unfold reply_shape. fold (lp raw f). rewrite C0. reflexivity.
   - (* arp *)
     match goal with Hx : negb (w_vpn_source w) = true |- _ => apply negb_true_iff in Hx; rewrite Hx in * end.
-    cbn [andb method_gets_vpn] in *. unfold reply_shape. cbn [negb andb].
+    cbn [andb method_gets_vpn] in *.
+    match goal with Hs : (snap_need _ <=? _) = true |- _ => apply Z.leb_le in Hs;
+      rewrite (cut_is_record _ _ (process_cut_arp st f _ Hwf Hs)) end.
+    unfold reply_shape. cbn [negb andb].
     destruct (eth_header 2054 f) eqn:C0.
     + assert (H14 : 14 <= Zlength f) by (unfold eth_header in C0; apply andb_true_iff in C0; destruct C0 as [C0 _]; apply Z.leb_le; exact C0).
       assert (Hn : eth_header 2048 f = false).
       { unfold eth_header in *. apply andb_true_iff in C0. destruct C0 as [_ C0]. apply Z.eqb_eq in C0. rewrite C0.
         apply andb_false_r. }
-      unfold wf_unfrag in Hwf. rewrite Hn, C0 in Hwf. apply andb_true_iff in Hwf. destruct Hwf as [_ Ha].
+      pose proof Hwf as Hwf0. unfold wf_unfrag in Hwf. rewrite Hn, C0 in Hwf. apply andb_true_iff in Hwf. destruct Hwf as [_ Ha].
       rewrite (process_complete_arp st f C0 Ha). cbn [is_record]. rewrite andb_true_r.
       assert (H28 : 28 <= Zlength (drop 14 f)).
       { unfold arp_6_4 in Ha. repeat (apply andb_true_iff in Ha; destruct Ha as [Ha ?]). apply Z.leb_le. exact Ha. }
@@ -655,4 +899,46 @@ Proof.
       exfalso. apply (process_record KArp (code_valid KArp) (code_valid_sound KArp)) in E. destruct E as [Hch _].
       unfold has_chain in Hch. rewrite C0 in Hch. discriminate.
 Qed.
+
+Lemma wiring_facts w : cmd_wiring_ok w = true ->
+  snap_need (kind_of_method (w_method w)) <= snaplen_of (w_filter w) /\
+  (forall vpn, method_raw w vpn = source_raw w vpn) /\
+  (kind_of_method (w_method w) = KArp -> forall vpn, source_raw w vpn = false).
+Proof.
+  unfold cmd_wiring_ok, method_raw, source_raw. intros Hok.
+  apply andb_true_iff in Hok. destruct Hok as [Hs Hok]. apply Z.leb_le in Hs. split; [exact Hs|].
+  destruct (class_of_cmd (w_cmd w)) as [c|]; [|discriminate].
+  destruct c; destruct (w_method w) as [pf af| | |] eqn:Em; try discriminate;
+    destruct (w_filter w) eqn:Ef; try discriminate;
+    unfold method_gets_vpn in *;
+    repeat match goal with Hx : _ && _ = true |- _ => apply andb_true_iff in Hx; destruct Hx end;
+    repeat match goal with Hx : ?b = true |- context [?b] => rewrite Hx end;
+    repeat match goal with Hx : negb ?b = true |- _ => apply negb_true_iff in Hx; rewrite Hx in * end;
+    (split; [intros vpn; reflexivity|]); cbn [kind_of_method]; try discriminate.
+  intros _ vpn. reflexivity.
+Qed.
 Transparent forallb.
+
+(* a reported frame's record is the record of the whole frame, although the processor only saw the
+   frame cut to the snapshot length *)
+Lemma reported_record w vpn r st f :
+  cmd_wiring_ok w = true -> wf_unfrag (source_raw w vpn) f = true -> reported w vpn r st f = true ->
+  snd (process (kind_of_method (w_method w)) (method_raw w vpn) (code_valid (kind_of_method (w_method w))) st
+               (take (snaplen_of (w_filter w)) f))
+  = ORecord (fields_of (kind_of_method (w_method w)) (method_raw w vpn) f).
+Proof.
+  intros Hok Hwf Hr. destruct (wiring_facts w Hok) as [Hs [Hraw Harp]].
+  unfold reported in Hr. apply andb_true_iff in Hr. destruct Hr as [_ Hr].
+  rewrite Hraw in *. set (k := kind_of_method (w_method w)) in *. set (raw := source_raw w vpn) in *.
+  assert (Hcut : snd (process k raw (code_valid k) st (take (snaplen_of (w_filter w)) f)) = snd (process k raw (code_valid k) st f) \/
+                 (is_record (snd (process k raw (code_valid k) st (take (snaplen_of (w_filter w)) f))) = false /\
+                  is_record (snd (process k raw (code_valid k) st f)) = false)).
+  { destruct k as [pf af| |] eqn:Ek.
+    - exact (process_cut_ip (KTcp pf af) raw st f _ 6 eq_refl Hwf Hs).
+    - exact (process_cut_ip KIcmp raw st f _ 1 eq_refl Hwf Hs).
+    - assert (Hf : raw = false) by (subst raw; apply Harp; reflexivity). rewrite Hf in *.
+      exact (process_cut_arp st f _ Hwf Hs). }
+  destruct Hcut as [Heq|[Hn _]]; [|rewrite Hn in Hr; discriminate].
+  rewrite Heq in *. destruct (process k raw (code_valid k) st f) as [st' o] eqn:E. destruct o; try discriminate.
+  cbn [snd]. f_equal. exact (proj2 (process_record k (code_valid k) (code_valid_sound k) _ _ _ _ _ E)).
+Qed.
